@@ -53,8 +53,22 @@ pub fn exec_config_save(input: &Value) -> (Value, Value) {
     let project = if exists { dir.to_string_lossy().to_string() } else { dir.join("no/such/dir").to_string_lossy().to_string() };
     let mut in2 = input.clone();
     in2["settings"]["projectPath"] = json!(project);
+    // `prior`: settings saved first by the real code; the case then starts from the document that save produced
+    if let Some(prior) = input.get("prior") {
+        if !prior.is_null() {
+            let doc1 = guarded(|| {
+                std::fs::write(&path, serde_json::to_string_pretty(&input["doc"]).unwrap()).unwrap();
+                let _ = cfg_from(prior, &project).save_to_tauri_config(&path);
+                std::fs::read_to_string(&path).ok().and_then(|t| serde_json::from_str(&t).ok()).unwrap_or(Value::Null)
+            });
+            if doc1.get("panic").is_none() && !doc1.is_null() {
+                in2["doc"] = doc1;
+            }
+        }
+    }
+    let doc_now = in2["doc"].clone();
     let imp = guarded(|| {
-        std::fs::write(&path, serde_json::to_string_pretty(&input["doc"]).unwrap()).unwrap();
+        std::fs::write(&path, serde_json::to_string_pretty(&doc_now).unwrap()).unwrap();
         let cfg = cfg_from(&in2["settings"], &project);
         let save = match cfg.save_to_tauri_config(&path) {
             Ok(()) => "ok".to_string(),
@@ -119,6 +133,7 @@ pub fn run(out: &mut Out, tier: &str, rng: &mut Rng) {
         json!({"outputPath": "o", "validationLibrary": "none", "excludePatterns": ["target/**"], "includePatterns": ["src/**", "üñí"]}),
         json!({"outputPath": "x", "validationLibrary": "yup"}),
         json!({"outputPath": "pfad/ö", "validationLibrary": "none", "typeMappings": {}}),
+        json!({"outputPath": "g", "validationLibrary": "zod", "typeMappings": {"Versioned<Uuid, Rev>": "string", "HashMap<String, u8>": "number", " padded ": "string"}}),
     ];
     let n = if tier == "thorough" { 6000 } else { 500 };
     for i in 0..n {
@@ -149,6 +164,22 @@ pub fn run(out: &mut Out, tier: &str, rng: &mut Rng) {
         }
         let st = settings_pool[rng.below(settings_pool.len())].clone();
         let exists = i % 7 != 0;
+        if i % 4 == 3 {
+            // a block is already stored that differs from the new settings in exactly one member
+            let mut prior = st.clone();
+            let key = *rng.pick(&["force", "verbose", "visualizeDeps", "includePrivate", "outputPath", "validationLibrary", "typeMappings", "excludePatterns", "includePatterns"]);
+            let cur = prior.get(key).cloned().unwrap_or(Value::Null);
+            let other = match key {
+                "force" | "verbose" | "visualizeDeps" | "includePrivate" => json!(!cur.as_bool().unwrap_or(false)),
+                "outputPath" => json!("elsewhere"),
+                "validationLibrary" => json!(if cur == json!("zod") { "none" } else { "zod" }),
+                "typeMappings" => json!({"Other": "number"}),
+                _ => json!(["changed/**"]),
+            };
+            prior[key] = other;
+            out.case("configSave", json!({"doc": doc, "settings": st, "prior": prior, "project_exists": true}), json!({"gen": "prior", "key": key}));
+            continue;
+        }
         out.case("configSave", json!({"doc": doc, "settings": st, "project_exists": exists}), json!({"gen": "rand"}));
     }
 }
